@@ -18,8 +18,8 @@ CHECKS = {
    design_ref="§6 C05", technique="Lean 4 proof (state-machine: rejected call = identity) + exact differential correspondence with injected invalid calls and twin histories",
    note="memory-safety clause (no out-of-bounds access) is outside the model; it is exercised by the same histories but not proved"),
  "C07": dict(category="proof",
-   text="Theorems garbage_independent / garbage_independent_rel (two executions of ANY call history - setup, update with any argument subset, solve, settings changes, rejected calls - whose states differ only in never-written buffer slots, with arbitrary per-slot garbage that changes at every call, return identical outcomes, statuses, all 13 result vectors and info after every call; proved for every scalar type, by a 2-safety argument over the whole interface model: loopG_rel, initLoopG_rel, realOps_rel, solveTyped_rel, setupTyped_rel, updateTyped_rel, apiStep_rel in PiqpProofs/Garbage.lean), observe_rel, apiRel_refl, instances_independent (the interface step has no global component: steps of two instances commute) + exact poison tie: the real templates run with an exact scalar whose never-written values are tagged; use of such a value as an operand is counted per op (must be 0) and never-written slots reaching outputs are compared with the model, over all short words of pattern-growing/shrinking updates and random histories.",
-   design_ref="§6 C07", technique="Lean 4 proof (2-safety / non-interference of uninitialised slots over the whole interface model; no shared state) + tagged-uninitialised exact scalar run of the real templates",
+   text="Theorems garbage_independent / garbage_independent_rel (two executions of ANY call history - setup, update with any argument subset, solve, settings changes, rejected calls - whose states differ only in never-written buffer slots, with arbitrary per-slot garbage that changes at every call, return identical outcomes, statuses, all 13 result vectors and info after every call; proved for every scalar type, by a 2-safety argument over the whole interface model: loopG_rel, initLoopG_rel, realOps_rel, solveTyped_rel, setupTyped_rel, updateTyped_rel, apiStep_rel in PiqpProofs/Garbage.lean), observe_rel, apiRel_refl, instances_independent (the interface step has no global component: steps of two instances commute), no_hidden_static_state (decide over the table of mutable static-storage variables regenerated from include/piqp and interfaces/c on every run by translate/statics.py: none outside the PIQP_VERIF hook header) + hidden-state probe (the same exact history alone in a fresh process / after other solver instances on other data / twice in a row must print the same exact strings, all five back ends, both preconditioners) + exact poison tie: the real templates run with an exact scalar whose never-written values are tagged; use of such a value as an operand is counted per op (must be 0) and never-written slots reaching outputs are compared with the model, over all short words of pattern-growing/shrinking updates and random histories.",
+   design_ref="§6 C07", technique="Lean 4 proof (2-safety / non-interference of uninitialised slots over the whole interface model; decide over the regenerated static-storage table) + tagged-uninitialised exact scalar run of the real templates + exact cross-instance process probe",
    note="partial: real heap/stack pre-states, object relocation and threads are runtime behaviour not exhibited by the model; Eigen-internal scratch is trusted"),
  "C08": dict(category="proof",
    text="Lean theorems restoreBox_spec / restore_after_setupLb / restore_after_setupUb (for every n and every finite/infinite pattern the descending swap loop puts packed slot t at variable idx t and exactly the fill value, 0 resp. +inf, at every variable without a finite bound; the packing produced by setup_lb_data/setup_ub_data is strictly increasing: packLoop_inv), mehrotra_in_cone / initialPoint_in_cone (after the two Mehrotra-style shifts every active slack and multiplier of the initial point is strictly positive, under the guard that the shifted complementarity product is positive), step_in_cone / stepNumOp_in_cone / mainLoop_in_cone / solve_loop_in_cone (strict positivity is an invariant of the fraction-to-boundary rule for EVERY direction and of the whole main loop at every exit and every iteration budget, every back end, every factorisation outcome), swapLoop_mem. Tie: wellFormedFails evaluated exactly on results equal to the implementation's for all 4^n bound patterns (n=2 all back ends and preconditioners, n=3), budgets 1,2 and re-solves with n_lb != n_ub.",
